@@ -22,6 +22,9 @@ RULE = ("abstract multi-block descriptions (1-3 blocks, 1-5 statements, nesting 
 
 def gen_cases(run, n):
     out = []
+    for d in gen_desc.CORPUS:
+        texts, marks = gen_desc.print_desc(d, gen_desc.Spelling(run.rng))
+        out.append((d, texts, marks))
     for _ in range(n):
         g = gen_desc.Gen(run.rng)
         d = g.desc()
